@@ -134,16 +134,16 @@ def lits_for(rnd, signed, n, f, radix, count):
         while made < 6 and tries < 200000:
             tries += 1
             t = rnd.randrange(1, 5 ** 27)
-            hi = (-t * inv) % (1 << 101)
-            if hi >= 10 ** 27 or hi < 10 ** 26:
+            h27 = (-t * inv) % (1 << 101)
+            if h27 >= 10 ** 27 or h27 < 10 ** 26:
                 continue
-            r = (hi * 10 ** 27) % (1 << 128)
+            r = (h27 * 10 ** 27) % (1 << 128)
             thr = (1 << 128) - r          # lo >= thr carries
             if thr >= 10 ** 27:
                 continue
-            for lo in (thr - 1, thr, thr + 1, rnd.randrange(thr, 10 ** 27), thr - rnd.randrange(1, max(2, thr))):
-                if 0 <= lo < 10 ** 27:
-                    frac = "%027d%027d" % (hi, lo)
+            for l27 in (thr - 1, thr, thr + 1, rnd.randrange(thr, 10 ** 27), thr - rnd.randrange(1, max(2, thr))):
+                if 0 <= l27 < 10 ** 27:
+                    frac = "%027d%027d" % (h27, l27)
                     ip = rnd.choice(("0", "", "1")) if f < 128 else rnd.choice(("0", ""))
                     emit(rnd.random() < 0.3 and signed, ip, frac)
                     emit(False, ip, frac.rstrip("0") + rnd.choice(("", "5", "0001")))
